@@ -88,7 +88,15 @@ def make_s_layout(params, part, nparts):
 
 # ---- E tier: real functions built with exec --------------------------------
 
-def _build(npos_only, nreq, nopt, va, nkwreq, nkwopt, kw):
+DEFAULT_KINDS = ['%d', 'None', "'s%d'", '()', '(%d,)', "(%d, 's')", '[%d]']
+
+
+def _dflt(dk, i):
+    t = DEFAULT_KINDS[dk]
+    return t % i if '%' in t else t
+
+
+def _build(npos_only, nreq, nopt, va, nkwreq, nkwopt, kw, dk=0):
     """Source of a def with the given shape.  Returns (src, names)."""
     parts = []
     i = 0
@@ -97,7 +105,7 @@ def _build(npos_only, nreq, nopt, va, nkwreq, nkwopt, kw):
     for _ in range(nreq):
         pos.append('a%d' % i); i += 1
     for _ in range(nopt):
-        pos.append('a%d=%d' % (i, 10 + i)); i += 1
+        pos.append('a%d=%s' % (i, _dflt(dk, 10 + i))); i += 1
     if npos_only:
         pos.insert(npos_only, '/')
     parts += pos
@@ -108,7 +116,7 @@ def _build(npos_only, nreq, nopt, va, nkwreq, nkwopt, kw):
     for j in range(nkwreq):
         parts.append('k%d' % j)
     for j in range(nkwopt):
-        parts.append('ko%d=%d' % (j, 20 + j))
+        parts.append('ko%d=%s' % (j, _dflt(dk, 20 + j)))
     if kw:
         parts.append('**kws')
     return 'def f(%s):\n    loc = 1\n    return loc\n' % ', '.join(parts)
@@ -131,8 +139,8 @@ def _expected(fn, strip):
 
 def run_exec_case(case):
     from zope.interface.interface import fromFunction, fromMethod
-    (npos_only, nreq, nopt, va, nkwreq, nkwopt, kw, mode) = case
-    src = _build(npos_only, nreq, nopt, va, nkwreq, nkwopt, kw)
+    (npos_only, nreq, nopt, va, nkwreq, nkwopt, kw, mode, dk) = case
+    src = _build(npos_only, nreq, nopt, va, nkwreq, nkwopt, kw, dk)
     ns = {}
     exec(src, ns)
     f = ns['f']
@@ -163,7 +171,11 @@ def run_exec_case(case):
                 src.splitlines()[0], mode, what, got[what], exp[what]),
                 signature=_classify(nk, va, kw, what))
     # getSignatureString renders exactly that signature: re-parse it
-    s = m.getSignatureString()
+    try:
+        s = m.getSignatureString()
+    except Exception as e:
+        raise Violation('%s mode=%d: getSignatureString raised %s: %s' % (src.splitlines()[0], mode, type(e).__name__, e),
+                        signature=_classify(nk, va, kw, 'sigstring'))
     ns2 = {}
     exec('def g%s: pass' % s, ns2)
     exp2 = _expected(ns2['g'], 0)
@@ -174,7 +186,7 @@ def run_exec_case(case):
         raise Violation('function attribute not a tagged value', signature='C18:tagged')
     # a second function object from the same ``def`` (same code object) with other defaults / attributes, described
     # after the first one: a description belongs to the function, not to its code object
-    if nopt and mode in (0, 1):
+    if nopt and mode in (0, 1) and dk == 0:
         import types
         f2 = types.FunctionType(f.__code__, f.__globals__, f.__name__, tuple(d + 500 for d in f.__defaults__), f.__closure__)
         f2.__kwdefaults__ = dict(f.__kwdefaults__) if f.__kwdefaults__ else None
@@ -193,7 +205,7 @@ def make_e_exec(params, part, nparts):
     MAXOPT = params.get('max_opt', 2)
     MAXKW = params.get('max_kwonly', 1)
 
-    def h(posonly: int, nreq: int, nopt: int, va: int, nkwreq: int, nkwopt: int, kw: int, mode: int):
+    def h(posonly: int, nreq: int, nopt: int, va: int, nkwreq: int, nkwopt: int, kw: int, mode: int, dk: int):
         c_mode = pick(mode, 4)
         c_nreq = pick(nreq, MAXREQ + 1)
         assume((c_mode * (MAXREQ + 1) + c_nreq) % nparts == part)
@@ -202,7 +214,9 @@ def make_e_exec(params, part, nparts):
         c_po = pick(posonly, 3)
         assume(c_po <= c_nreq + c_nopt)
         case = (c_po, c_nreq, c_nopt, pick(va, 2), pick(nkwreq, MAXKW + 1),
-                pick(nkwopt, MAXKW + 1), pick(kw, 2), c_mode)
+                pick(nkwopt, MAXKW + 1), pick(kw, 2), c_mode, 0)
+        if c_nopt + case[5]:
+            case = case[:8] + (pick(dk, len(DEFAULT_KINDS)),)      # default values: int, None, str, (), 1-tuple, 2-tuple, list
         native(run_exec_case, case)
     return h
 
@@ -252,7 +266,8 @@ HARNESSES = [
                        thorough=dict(budget_s=600, parts=16, params=dict(max_req=3, max_opt=2, max_kwonly=2))),
             encoded=_ENC,
             bounds='real def statements: required<=2(3), defaulted<=2, positional-only split<=2, '
-                   'keyword-only required/defaulted<=1(2), *args, **kw; fromFunction, imlevel=1, bound method, fromMethod(function)',
+                   'keyword-only required/defaulted<=1(2), *args, **kw; default values of 7 kinds (int, None, str, (), 1-tuple, 2-tuple, list); '
+                   'fromFunction, imlevel=1, bound method, fromMethod(function)',
             outside='builtins / C functions; parameter annotations',
             oracle='inspect.signature; getSignatureString re-parsed by exec and compared again'),
     Harness('e_abc', make_e_abc, kind='E', impls=('py',),
